@@ -24,7 +24,10 @@ META = dict(
           "Reference cycles and other threads' state are outside the property."),
     design_ref="DESIGN.md §6 C11")
 
-EXTRA = ["var rs%d = make_sp(%d); reseat(rs%d, 7); pr(rs%d.get()); pr(by_cref(rs%d)); var rc%d = rs%d; pr(rc%d.get()); rs%d.set(3); pr(by_value(rs%d))",
+EXTRA = ["var rr%d := range([T(%d)]); rr%d := range([T(%d), T(%d)]); pr(rr%d.front().get()); pr(rr%d.back().get()); rr%d.pop_front(); pr(rr%d.front().get())",
+         "var rq%d := range([T(%d), T(%d)]); var rp%d := rq%d; rq%d := range([T(%d)]); pr(rp%d.front().get()); pr(rq%d.front().get())",
+         "auto &ra%d = range([T(%d)]); ra%d := retro(range([T(%d), T(%d)])); pr(ra%d.front().get())",
+         "var rs%d = make_sp(%d); reseat(rs%d, 7); pr(rs%d.get()); pr(by_cref(rs%d)); var rc%d = rs%d; pr(rc%d.get()); rs%d.set(3); pr(by_value(rs%d))",
          "var rt%d = make_sp(%d); var ru%d = rt%d; reseat(rt%d, 8); pr(ru%d.get()); pr(rt%d.get()); pr(by_sp(rt%d))",
          "var rv%d = make_sp(%d); unseat(rv%d); reseat(rv%d, 9); pr(rv%d.get()); pr(by_cref(rv%d))",
          "def rf%d(p) { reseat(p, 6); by_cref(p) }; var rw%d = make_sp(%d); pr(rf%d(rw%d)); pr(rw%d.get())",
